@@ -74,7 +74,8 @@ def gen_case(rng, tier, pid, n):
     use_ice = rng.random() < 0.3
     if use_ice:
         pool = pool + netgen.ice_pool("#")
-    if rng.random() < 0.15:
+    grain_case = pid == "C04" and n == 3        # one network that carries its grains as species, always
+    if rng.random() < 0.15 or grain_case:
         pool = pool + [netgen.grain(0), netgen.grain(-1)]
     big = tier == "thorough" and rng.random() < 0.3
     nsp = rng.randint(0, 40 if big else 12)
@@ -95,6 +96,9 @@ def gen_case(rng, tier, pid, n):
         byname = {s.name: s for s in pool}
         forced = forced + [byname[x] for x in rng.choice([["pH2", "PH2", "H", "PH"], ["pH3+", "PH3+", "H2", "PH2+"], ["pH2", "PH2", "PH2+", "H+"]])
                            if x in byname and byname[x] not in forced]
+        nsp, nre = max(nsp, 5), max(nre, 8)
+    if grain_case:
+        forced = forced + [netgen.grain(0), netgen.grain(-1)]
         nsp, nre = max(nsp, 5), max(nre, 8)
     config = "default"
     if pid in ("C01", "C02", "C03", "C13") and n > 1 and rng.random() < 0.2:
@@ -532,7 +536,7 @@ def run(pid: str, argv):
     all_b = list(BACKENDS)
     requests, pending = [], []
     ov_requests, ov_pending = [], []
-    compiled_jobs, physics_jobs = [], []
+    compiled_jobs, physics_jobs, rhs_jobs = [], [], []
     for n in range(ncases):
         case = gen_case(chk.rng, tier, pid, n)
         ok_cool = allowed_cooling(case)
@@ -558,10 +562,10 @@ def run(pid: str, argv):
         except Exception as e:
             chk.corr_break("stage-input", case_summary(case), None, f"{type(e).__name__}: {e}")
             req = None
-        if pid == "C01" and (case["cooling"] or case.get("heating")) and len(physics_jobs) < {"quick": 3, "thorough": 20}[tier]:
-            for b, rd in list(rds.items())[:1]:
-                if b == "cusparse":
-                    continue
+        has_grain = any(sp.kind == "grain" for sp in case["species"])
+        if ((pid == "C01" and (case["cooling"] or case.get("heating"))) or (pid == "C04" and case["reacs"] and (has_grain or n % 4 == 2))) \
+                and len(physics_jobs) < {"quick": 3, "thorough": 20}[tier] + (1 if has_grain else 0):
+            for b, rd in [(b, rd) for b, rd in rds.items() if b != "cusparse"][:1]:
                 masses = [0.0] * rd.nspec
                 comps = [[0] * rd.nelem for _ in range(rd.nspec)]
                 for sp in net.species:
@@ -572,6 +576,15 @@ def run(pid: str, argv):
                             if ei < rd.nelem:
                                 comps[rd.idx[nm]][ei] = int(sp.element_count.get(en[len("IDX_ELEM_"):], 0))
                 physics_jobs.append((case, b, rd, masses, comps))
+        if pid == "C01" and case["reacs"] and not case["mods"] and len(rhs_jobs) < {"quick": 3, "thorough": 24}[tier] \
+                and (any(r.tmin > 0 or r.tmax > 0 for r in case["reacs"]) or n % 5 == 0):
+            for b, rd in rds.items():
+                if b == "cusparse":
+                    continue
+                res, err = expected_fex(case, rd)
+                if not err:
+                    rhs_jobs.append((case, b, rd, res[0]))
+                break
         if pid == "C03" and case["reacs"] and len(compiled_jobs) < {"quick": 4, "thorough": 24}[tier]:
             compiled_jobs += [(case, b, rds[b].path) for b in ("dense", "sparse") if b in rds]
         for b, rd in rds.items():
@@ -608,6 +621,8 @@ def run(pid: str, argv):
         compiled_matrix_check(chk, compiled_jobs)
     if physics_jobs:
         compiled_physics_check(chk, physics_jobs)
+    if rhs_jobs:
+        compiled_rhs_check(chk, rhs_jobs)
     # ---- model correspondence
     if getattr(chk, "lean_ok", False) and requests:
         try:
@@ -922,6 +937,73 @@ def reassigned_modifiers_check(chk, case, net, n):
                       differing_statement=d)
 
 
+def compiled_rhs_check(chk, jobs):
+    """The emitted text says `ydot[i] = … k[r]*y[…] …`; what the compiled function computes also depends on where `k[]` comes from.
+    The rendered rate and right-hand-side sources are compiled and `Fex` is called, in one process, at a sequence of temperatures
+    that enter and leave the reactions' windows; at every call the compiled derivative of every species must be the mass-action sum
+    over the coefficients `EvalRates` gives *at that temperature* (zero outside a window)."""
+    import math
+    import subprocess
+    from concurrent.futures import ThreadPoolExecutor
+    from . import cbuild
+    from .common import ROOT
+    temps = [50.0, 5000.0, 5.0, 250.0, 1.0e5, 50.0]
+
+    def one(job):
+        case, b, rd, exp = job
+        path = Path(rd.path)
+        files = [path / "src" / ("naunet_ode.cpp" if b == "rosenbrock4" else "naunet_rates.cpp"),
+                 path / "src" / "naunet_physics.cpp", path / "src" / "naunet_constants.cpp", path / "src" / "naunet_utilities.cpp"]
+        if b != "rosenbrock4":
+            files.append(path / "src" / "naunet_fex.cpp")
+        exe = path / "c01_rhs"
+        ok, err = cbuild.build(path, ROOT / "shim" / "c06_driver.cpp", exe, b, files=[f for f in files if f.exists()],
+                               defines=["C06_ODEINT"] if b == "rosenbrock4" else [])
+        if not ok:
+            return job, "build", err
+        r = subprocess.run([str(exe)], input="\n".join(repr(t) for t in temps) + "\n", capture_output=True, text=True, timeout=300)
+        lines = r.stdout.strip().split("\n")
+        if r.returncode != 0 or len(lines) != len(temps):
+            return job, "run", f"rc={r.returncode} {r.stderr[-300:]}"
+        return job, None, lines
+
+    with ThreadPoolExecutor(8) as ex:
+        for (case, b, rd, exp), stage, out in ex.map(one, jobs):
+            summ = case_summary(case)
+            chk.hist["compiled-rhs"] += 1
+            if stage is not None:
+                chk.corr_break("compiled-rhs", summ, None, f"{stage}: {out[-500:]}")
+                continue
+            for t, line in zip(temps, out):
+                ks, _, yd = line.partition("|")
+                k = [0.0 if x == "nan" or x == "-nan" else float(x) for x in ks.split()]
+                ydot = [float(x) for x in yd.split()]
+                if not all(math.isfinite(x) for x in k):
+                    continue
+                bad = None
+                for nm, p in exp.items():
+                    want, mag = 0.0, 0.0
+                    for mono, c in p.items():
+                        v = float(c)
+                        for a, e in mono:
+                            if a.startswith("k["):
+                                v *= k[int(a[2:-1])] ** e if int(a[2:-1]) < len(k) else float("nan")
+                        want += v
+                        mag += abs(v)
+                    got = ydot[rd.idx[nm]] if rd.idx[nm] < len(ydot) else float("nan")
+                    # (the emitted sum also subtracts and re-adds the terms of catalysts, which cancel in the polynomial but leave the
+                    # rounding error of their magnitude behind)
+                    if not (abs(got - want) <= 1e-9 * max(mag, 1e-300) + 1e-14 * sum(abs(x) for x in k)):
+                        bad = (nm, got, want)
+                        break
+                if bad:
+                    chk.violation({"kind": "compiled-rhs-differs", "backend": b},
+                                  f"compiled {b} right-hand side at Tgas={t!r} (call {temps.index(t) + 1} of the sequence {temps}, all abundances "
+                                  f"1): ydot[{bad[0]}] = {bad[1]!r}, the mass-action sum over this call's rate coefficients is {bad[2]!r}",
+                                  input=summ)
+                    break
+
+
 def slot_identity_check(chk):
     """Every species owns one ODE slot, named by its alias (`IDX_<alias>`): element and charge sums are taken slot by slot, so two
     different species with one alias would share a slot and the second `ydot[...] =` statement would overwrite the first.  The
@@ -1008,11 +1090,20 @@ def compiled_physics_check(chk, jobs):
                     bad = ("GetMu", mu, want_mu)
                 elif not close(gamma, 5.0 / 3.0):
                     bad = ("GetGamma", gamma, 5.0 / 3.0)
+                elif comps is not None:
+                    elems = [float(x) for x in tail.split()]
+                    for e in range(min(rd.nelem, len(elems))):
+                        want_e = sum(c[e] * y for c, y in zip(comps, ys))
+                        if not close(elems[e], want_e):
+                            ename = next((k for k, v in rd.elem_idx.items() if v == e), str(e))
+                            bad = (f"GetElementAbund(y, {ename})", elems[e], want_e)
+                            break
                 if bad:
                     model_reqs, model_pend = [r for r, p in zip(model_reqs, model_pend) if p[0] is not summ], [p for p in model_pend if p[0] is not summ]
                     chk.violation({"kind": "physics-helper", "helper": bad[0], "backend": b},
-                                  f"compiled {bad[0]}(y) returns {bad[1]!r}; over the {rd.nspec} species of the network it should be "
-                                  f"{bad[2]!r} (the temperature equation is emitted as …/(kerg*npar) with npar = GetNumDens(y))",
+                                  f"compiled {bad[0]}{'' if bad[0].endswith(')') else '(y)'} returns {bad[1]!r}; over the {rd.nspec} species of the "
+                                  f"network it should be {bad[2]!r} (element totals are count-weighted sums over all species; the temperature "
+                                  f"equation is emitted as …/(kerg*npar) with npar = GetNumDens(y))",
                                   input=summ, vector=v)
                     break
     physics_model_correspondence(chk, model_reqs, model_pend)
